@@ -1351,6 +1351,9 @@ class AggregateBase(UnitsManaged, Saveable, OpenSystem):
 
         """
         manager = Manager()
+        # units of the caller; the saved value kept by the manager is
+        # overwritten by every units context entered during the build
+        units_backup = manager.get_current_units("energy")
         manager.set_current_units("energy", "int")
 
         # maximum multiplicity of excitons handled by this aggregate
@@ -1725,7 +1728,7 @@ class AggregateBase(UnitsManaged, Saveable, OpenSystem):
 
         self._built = True
 
-        manager.unset_current_units("energy")
+        manager.set_current_units("energy", units_backup)
 
 
     def rebuild(self, mult=1, sbi_for_higher_ex=False,
